@@ -13,8 +13,29 @@ from sympy.physics.quantum.fermion import FermionOp
 from sympy.physics.quantum import pauli
 from pymablock import block_diagonalize
 from pymablock.number_ordered_form import NumberOrderedForm as NOF, NumberOperator, LadderOp, _number_operator_to_placeholder
-from fock import nof_apply
+from fock import apply_gen
 from ref2 import reference
+
+def nof_apply(modes, nof, ops, placeholders, st):
+    """apply a NumberOrderedForm to a basis state (unnormalised basis); complex coefficients allowed"""
+    out = {}
+    for powers, coeff in nof.args[1]:
+        powers = [int(p) for p in powers]; vec = {st: 1}
+        for k in range(len(ops)):
+            if powers[k] > 0:
+                for _ in range(powers[k]): vec = apply_gen(modes, k, False, vec)
+        new = {}
+        for s_, a in vec.items():
+            val = coeff.xreplace({placeholders[k]: sympy.Integer(s_[k]) for k in range(len(ops))})
+            val = val.subs({sym: 1 for sym in val.free_symbols})
+            val = complex(sympy.N(val, 30))
+            if val != 0: new[s_] = a * val
+        vec = new
+        for k in reversed(range(len(ops))):
+            if powers[k] < 0:
+                for _ in range(-powers[k]): vec = apply_gen(modes, k, True, vec)
+        for s_, a in vec.items(): out[s_] = out.get(s_, 0) + a
+    return {s_: a for s_, a in out.items() if a != 0}
 
 ORDER = {'b': 0, 'l': 1, 's': 2, 'f': 3}; KIND = {'b': BosonOp, 'l': LadderOp, 's': pauli.SigmaMinus, 'f': FermionOp}
 SYSTEMS = [
@@ -27,6 +48,18 @@ SYSTEMS = [
   lambda d: (d['a'] + Dagger(d['a'])) * pauli.SigmaX('s')),
  ("boson + fermion hopping", [('b', 'a'), ('f', 'c')], lambda d: 2 * Dagger(d['a']) * d['a'] + 5 * Dagger(d['c']) * d['c'],
   lambda d: Dagger(d['a']) * d['c'] + Dagger(d['c']) * d['a'] + d['a'] + Dagger(d['a'])),
+ ("spin with transverse drive + two fermions with hopping, number couplings in H_0", [('s', 's'), ('f', 'f'), ('f', 'g')],
+  lambda d: Q(3, 2) * pauli.SigmaZ('s') + 2 * Dagger(d['f']) * d['f'] + 5 * Dagger(d['g']) * d['g']
+            + Q(1, 3) * pauli.SigmaZ('s') * Dagger(d['f']) * d['f'] + Q(1, 7) * Dagger(d['f']) * d['f'] * Dagger(d['g']) * d['g'],
+  lambda d: pauli.SigmaX('s') + Dagger(d['f']) * d['g'] + Dagger(d['g']) * d['f'] + pauli.SigmaX('s') * (Dagger(d['f']) * d['g'] + Dagger(d['g']) * d['f'])),
+ ("boson with a complex drive", [('b', 'a')], lambda d: 2 * Dagger(d['a']) * d['a'] + Q(1, 3) * (Dagger(d['a']) * d['a'])**2,
+  lambda d: (1 + sympy.I) * d['a'] + (1 - sympy.I) * Dagger(d['a'])),
+ ("matrix-valued: equal diagonal entries, non-self-adjoint coupling entry", [('b', 'a')],
+  lambda d: sympy.Matrix([[2 * Dagger(d['a']) * d['a'] + Q(1, 3) * (Dagger(d['a']) * d['a'])**2, 0], [0, 2 * Dagger(d['a']) * d['a'] + Q(1, 3) * (Dagger(d['a']) * d['a'])**2]]),
+  lambda d: sympy.Matrix([[0, Q(1, 2) * d['a'] + Q(1, 3) * Dagger(d['a'])], [Q(1, 2) * Dagger(d['a']) + Q(1, 3) * d['a'], 0]])),
+ ("matrix-valued: different diagonal entries, two subspaces", [('b', 'a')],
+  lambda d: sympy.Matrix([[2 * Dagger(d['a']) * d['a'], 0], [0, 2 * Dagger(d['a']) * d['a'] + Q(7, 3)]]),
+  lambda d: sympy.Matrix([[d['a'] + Dagger(d['a']), 1 + Dagger(d['a'])], [1 + d['a'], d['a'] + Dagger(d['a'])]])),
 ]
 
 def run(label, spec, H0f, Vf, maxn, cut):
@@ -35,22 +68,33 @@ def run(label, spec, H0f, Vf, maxn, cut):
     H0 = H0f(d); V = Vf(d); ph = [_number_operator_to_placeholder(NumberOperator(o)) for o in ops]
     Ht, U, Ud = block_diagonalize(H0 + lam * V, symbols=[lam])
     outs = {n: (Ht[0, 0, n], U[0, 0, n]) for n in range(1, maxn + 1)}
+    dim = H0.rows if isinstance(H0, sympy.MatrixBase) else 1
     ranges = [range(0, cut) if m[0] == 'b' else (range(-cut // 2, cut // 2 + 1) if m[0] == 'l' else range(0, 2)) for m in spec]
-    states = list(itertools.product(*ranges)); idx = {s: i for i, s in enumerate(states)}
-    def mat(x):
-        M = np.zeros((len(states), len(states)))
+    states = list(itertools.product(*ranges)); idx = {s: i for i, s in enumerate(states)}; ns = len(states)
+    def mat1(x):
+        M = np.zeros((ns, ns), dtype=complex)
+        if x == 0: return M
+        x = x if isinstance(x, NOF) else NOF.from_expr(sympy.sympify(x).subs(lam, 1), ops)
         for s in states:
             for t, a in nof_apply(spec, x, ops, ph, s).items():
-                if t in idx: M[idx[t], idx[s]] += float(a)
+                if t in idx: M[idx[t], idx[s]] += complex(a)
         return M
-    H0m = mat(NOF.from_expr(H0, ops)); Vm = mat(NOF.from_expr(V, ops)); E = np.diag(H0m)
+    def mat(x):
+        """Fock matrix of a scalar operator or of a matrix of operators (index = entry * n_states + state)"""
+        if not isinstance(x, sympy.MatrixBase): x = sympy.Matrix([[x]])
+        M = np.zeros((dim * ns, dim * ns), dtype=complex)
+        for i in range(x.rows):
+            for j in range(x.cols): M[i * ns:(i + 1) * ns, j * ns:(j + 1) * ns] = mat1(x[i, j])
+        return M
+    states_all = [s for _ in range(dim) for s in states]
+    H0m = mat(H0); Vm = mat(V); E = np.diag(H0m).real
     elim = np.abs(E.reshape(-1, 1) - E) > 1e-9
     rHt, rU, rUi = reference({(0,): H0m, (1,): Vm}, elim, (maxn,))
-    low = [i for i, s in enumerate(states) if all(abs(x) <= 2 for x in s)]
+    low = [i for i, s in enumerate(states_all) if all(abs(x) <= 2 for x in s)]
     res = []
     for n in range(1, maxn + 1):
-        h, u = outs[n]; tonof = lambda x: x if isinstance(x, NOF) else NOF.from_expr(sympy.sympify(x).subs(lam, 1), ops)
-        hm = mat(tonof(h)); um = mat(tonof(u))
+        h, u = outs[n]
+        hm = mat(h); um = mat(u)
         res.append((n, float(np.abs(hm - rHt[(n,)])[np.ix_(low, low)].max()), float(np.abs(um - rU[(n,)])[np.ix_(low, low)].max()), len(low)))
     return res
 
